@@ -7,6 +7,8 @@ from eolib.protocol.serialization_error import SerializationError
 from vh_mutate import mut_unit
 from vh_gentree import gen_unit
 from vh_refsem import build
+from c02_wire import wire as wire_equals_prescription
+from c03_hostile import hostile as reads_as_prescribed
 
 
 class InjectedFault(Exception):
@@ -189,3 +191,14 @@ def nested_not_chunked(types, desc, cfg):
     both = w.to_bytearray()
     check(len(both) == 2 * len(first), "second serialization has the same length")
     check(both[len(first):] == first, "second serialization equals the first (no mode leaked)")
+
+
+def nested_sanitised(types, desc, cfg):
+    """the 'consequently' clause, write side: a class that nests structures emits exactly the prescribed image, i.e.
+    nested structures are sanitised iff they are (lexically or by nesting) inside a chunked section"""
+    wire_equals_prescription(types, desc, cfg)
+
+
+def nested_read(types, desc, n, cap):
+    """the 'consequently' clause, read side: nested structures are read chunked iff inside a chunked section"""
+    reads_as_prescribed(types, desc, n, desc["entry"], cap)
